@@ -47,6 +47,7 @@ var c07Shapes = []struct{ Name, Src string }{
 	{"commented", "import (\n\t// doc fmt\n\t\"fmt\"\n\n\t\"io\" // trailing io\n\n\t// doc x\n\t\"a.b/x\"\n\t\"c.d/x\" // why\n)\n"},
 	{"same-path-twice", "import (\n\t\"fmt\"\n\tfmt2 \"fmt\"\n)\n"},
 	{"aliased-to-own-name", "import (\n\tfmt \"fmt\"\n\tio2 \"io\"\n)\n"},
+	{"cgo-in-group", "import (\n\t\"C\"\n\t\"fmt\"\n\tx2 \"c.d/x\"\n\t_ \"io\"\n)\n"},
 	{"raw-string-paths", "import (\n\tf `fmt`\n\t`io` // raw\n\n\t. `a.b/x`\n\t\"c.d\\x2fx\"\n)\n"},
 }
 
@@ -65,7 +66,7 @@ func init() {
 	core.Register(&core.Prop{
 		ID:    "C07",
 		Level: "model_checking",
-		Rule: "every configuration: used-path set (32 subsets of 5 paths incl. two packages named x and one whose name differs from its path) x 11 existing import shapes (none, single, block, two blocks, cgo, aliases/blank/dot, commented groups, same path twice, alias equal to name, raw-string and escaped path literals) " +
+		Rule: "every configuration: used-path set (32 subsets of 5 paths incl. two packages named x and one whose name differs from its path) x 12 existing import shapes (none, single, block, two blocks, cgo alone and cgo leading a group, aliases/blank/dot, commented groups, same path twice, alias equal to name, raw-string and escaped path literals) " +
 			"x FileRestorer.Alias override {none} + path x {new id, id of another package, the suffixed name a conflict would generate (x1), an alias another source import already uses, '.', '', '_'} x resolver {exact, lacking unused paths} x local path {unrelated, equal to a used path}; references are path-carrying identifiers in call, type and composite-literal positions; " +
 			"oracle independent of updateImports: re-parse the output, rebuild the import table from its import declarations and the resolver map; binding of every reference, exact import set, distinct names, name preference override > source alias > resolved name (+ decimal suffix on conflict), " +
 			"stable order/comments when nothing is added, and go/types acceptance; state = configuration; non-trivial = configuration with at least one used path",
